@@ -117,6 +117,15 @@ func checkC09(c *Ctx) {
 			c.c07Delete(b)
 		}
 	}, "R09.3", "backends.Delete:collision-is-a-miss", []string{"R07.3"}, "other-error", "removed-but-notfound", "nil-without-evidence")
+	// the sync.Map backend has no key comparison of its own: it is keyed by the entire key (string(key)), so a slot IS a key (C07
+	// R07.1) — keyed by a digest, Delete/LoadAndDelete removes a colliding key's live entry before any comparison can happen
+	c.borrowKinds("C07", func() {
+		for _, b := range backends {
+			if !b.Sharded {
+				c.c07Index(b)
+			}
+		}
+	}, "R09.3", "syncMap:keyed-by-the-entire-key", []string{"R07.1"}, "string-of-key", "restore-index")
 	// R09.4: the per-key build locks of the Failover frontends are keyed by the full key, not by a hash of it
 	for _, sib := range siblings {
 		fo := c.failover(sib)
